@@ -56,8 +56,13 @@ def run(prop, tier):
         ntrees = lib.extract_replay(tout, tcases)
         os.remove(tout)
         require(ntrees > 40000, "too few trees: %d" % ntrees)
+        os.makedirs(W, exist_ok=True)
         log("[tlc] ZyFormat: %d trees" % ntrees)
-        for l in open(tcases):
+        # depth 3 has 736 000 trees since the former table grew: the thorough tier feeds a seeded third of them
+        stride, phase = (1, 0) if tier == "quick" else (3, lib.seed() % 3)
+        for k, l in enumerate(open(tcases)):
+            if k % stride != phase:
+                continue
             c = json.loads(l)
             dest.write(json.dumps({"text": " ".join(t for t, p in zip(c["toks"], c["pars"]) if p != "red")}) + "\n")
     trace = os.path.join(W, "trace.ndjson")
